@@ -148,7 +148,7 @@ def run(ctx) -> int:
     ncorpus = len(items)
 
     # ---- generated programs --------------------------------------------------------------
-    n = 600 if ctx.quick else 20000
+    n = 600 if ctx.quick else 12000
     rng = vlib.rng(ctx.seed, "programs")
     fns = [gen_prog.gen_function(rng, f"f{i}") for i in range(n)]
     texts = [gen_prog.render(f) for f in fns]
